@@ -274,7 +274,10 @@ def tlc(module, cfg, workers=None, env=None, simulate=None, depth=None, extra=()
     for m in _re_cov.finditer(res.out):
         res.coverage[m.group(2) + "!" + m.group(1)] = (int(m.group(3)), int(m.group(4)))
     if tags:
-        for line in res.out.splitlines():
+        # (split on "\n" only: str.splitlines() also splits on NEL (0x85) and the other Unicode line
+        # boundaries, which can occur INSIDE a printed string, e.g. a label with bytes >= 0x80)
+        for line in res.out.split("\n"):
+            line = line.rstrip("\r")
             if not line.startswith('<<"'):
                 continue
             for tg in tags:
